@@ -73,6 +73,8 @@ impl Q {
 struct Dataset {
     chunks: Vec<ChunkSpec>,
     queries: Vec<Q>,
+    /// the node has an adaptive-index controller (queries go through collect_with_indexes)
+    indexed: bool,
 }
 
 impl Dataset {
@@ -94,10 +96,12 @@ impl Dataset {
         json!({
             "chunks": self.chunks.iter().map(|c| json!({"id": c.id, "min": c.min_ts, "max": c.max_ts, "rows": c.rows, "extra": c.extra_label})).collect::<Vec<_>>(),
             "queries": self.queries.iter().map(|q| json!({"kind": q.kind.name(), "lo": q.lo, "hi": q.hi, "pred": q.pred})).collect::<Vec<_>>(),
+            "indexed": self.indexed,
         })
     }
     fn from_json(v: &Value) -> Dataset {
         Dataset {
+            indexed: v["indexed"].as_bool().unwrap_or(false),
             chunks: v["chunks"]
                 .as_array()
                 .map(|a| {
@@ -197,8 +201,12 @@ async fn run_query(node: Arc<QueryNode>, q: Q) -> String {
 /// Timestamp; these data sets use integer nanoseconds like the repository's end-to-end
 /// tests, and a query selecting no chunk would then fail with a type error before any
 /// other query has run -- a difference that has nothing to do with concurrency.)
-async fn make_node(world: &World) -> Arc<QueryNode> {
+async fn make_node(world: &World, indexed: bool) -> Arc<QueryNode> {
     let mut node = world.node().await;
+    if indexed {
+        use cardinalsin::adaptive_index::{AdaptiveIndexConfig, AdaptiveIndexController};
+        node = node.with_adaptive_indexing(Arc::new(AdaptiveIndexController::new(AdaptiveIndexConfig::default())));
+    }
     let (btx, brx) = tokio::sync::broadcast::channel::<arrow_array::RecordBatch>(4);
     node.connect_broadcast(brx);
     drop(btx);
@@ -244,7 +252,7 @@ struct Outcome {
 /// Runs the command sequence on a fresh node over a fresh world.
 async fn run_schedule(ds: &Dataset, cmds: &[Cmd]) -> Outcome {
     let world = World::build(&ds.chunks).await;
-    let node = make_node(&world).await;
+    let node = make_node(&world, ds.indexed).await;
     let mut gate = cardinalsin::verif_hooks::register_gate(GATE);
     let (done_tx, mut done_rx) = mpsc::unbounded_channel::<(usize, String)>();
     let n = ds.queries.len();
@@ -337,7 +345,7 @@ async fn run_alone(ds: &Dataset) -> Vec<String> {
     let mut out = Vec::new();
     for q in &ds.queries {
         let world = World::build(&ds.chunks).await;
-        let node = make_node(&world).await;
+        let node = make_node(&world, ds.indexed).await;
         out.push(run_query(node, q.clone()).await);
     }
     out
@@ -389,7 +397,11 @@ fn gen_dataset(rng: &mut Rng, nq: usize, report: &mut Report) -> Dataset {
     if schema_mix {
         report.bump("dataset.schema_differs_between_chunks");
     }
-    let ds0 = Dataset { chunks: chunks.clone(), queries: vec![] };
+    let indexed = rng.chance(1, 4);
+    if indexed {
+        report.bump("dataset.indexed_node");
+    }
+    let ds0 = Dataset { chunks: chunks.clone(), queries: vec![], indexed };
     let mut queries: Vec<Q> = Vec::new();
     let mut tries = 0;
     while queries.len() < nq && tries < 200 {
@@ -436,7 +448,7 @@ fn gen_dataset(rng: &mut Rng, nq: usize, report: &mut Report) -> Dataset {
             report.bump("query.selects_nothing");
         }
     }
-    Dataset { chunks, queries }
+    Dataset { chunks, queries, indexed }
 }
 
 fn corpus() -> Vec<(Dataset, Vec<Cmd>)> {
@@ -454,13 +466,13 @@ fn corpus() -> Vec<(Dataset, Vec<Cmd>)> {
     let mut mixed = chunks.clone();
     mixed[2].extra_label = true;
     vec![
-        (Dataset { chunks: chunks.clone(), queries: vec![a.clone(), b.clone()] }, vec![Cmd::S(1), Cmd::S(2), Cmd::R(1), Cmd::R(2)]),
-        (Dataset { chunks: chunks.clone(), queries: vec![a.clone(), b.clone()] }, vec![Cmd::S(1), Cmd::S(2), Cmd::R(2), Cmd::R(1)]),
-        (Dataset { chunks: chunks.clone(), queries: vec![a.clone(), bs.clone()] }, vec![Cmd::S(1), Cmd::S(2), Cmd::R(1), Cmd::R(2)]),
-        (Dataset { chunks: chunks.clone(), queries: vec![bs.clone(), a.clone()] }, vec![Cmd::S(1), Cmd::S(2), Cmd::R(1), Cmd::R(2)]),
-        (Dataset { chunks: chunks.clone(), queries: vec![a.clone(), none.clone()] }, vec![Cmd::S(1), Cmd::S(2), Cmd::R(1), Cmd::R(2)]),
-        (Dataset { chunks: mixed, queries: vec![a.clone(), b.clone()] }, vec![Cmd::S(1), Cmd::S(2), Cmd::R(1), Cmd::R(2)]),
-        (Dataset { chunks, queries: vec![a, b, none] }, vec![Cmd::S(1), Cmd::S(2), Cmd::S(3), Cmd::R(1), Cmd::R(2), Cmd::R(3)]),
+        (Dataset { chunks: chunks.clone(), queries: vec![a.clone(), b.clone()], indexed: false }, vec![Cmd::S(1), Cmd::S(2), Cmd::R(1), Cmd::R(2)]),
+        (Dataset { chunks: chunks.clone(), queries: vec![a.clone(), b.clone()], indexed: true }, vec![Cmd::S(1), Cmd::S(2), Cmd::R(2), Cmd::R(1)]),
+        (Dataset { chunks: chunks.clone(), queries: vec![a.clone(), bs.clone()], indexed: false }, vec![Cmd::S(1), Cmd::S(2), Cmd::R(1), Cmd::R(2)]),
+        (Dataset { chunks: chunks.clone(), queries: vec![bs.clone(), a.clone()], indexed: false }, vec![Cmd::S(1), Cmd::S(2), Cmd::R(1), Cmd::R(2)]),
+        (Dataset { chunks: chunks.clone(), queries: vec![a.clone(), none.clone()], indexed: false }, vec![Cmd::S(1), Cmd::S(2), Cmd::R(1), Cmd::R(2)]),
+        (Dataset { chunks: mixed, queries: vec![a.clone(), b.clone()], indexed: false }, vec![Cmd::S(1), Cmd::S(2), Cmd::R(1), Cmd::R(2)]),
+        (Dataset { chunks, queries: vec![a, b, none], indexed: true }, vec![Cmd::S(1), Cmd::S(2), Cmd::S(3), Cmd::R(1), Cmd::R(2), Cmd::R(3)]),
     ]
 }
 
